@@ -7,7 +7,7 @@ def register(PROPS, HARNESS_PKGS):
 
     def g(formats, mutations):
         return {"module": "Poison", "cfg": "Poison_gen.cfg",
-                "params": {"Mutations": mutations, "Classes": lclasses, "HealthClasses": hclasses, "Formats": formats, "Fields": fields, "ValueClasses": values}}
+                "params": {"FleetClasses": '{"notjson", "truncated", "http500", "http404", "emptybody", "emptylist"}', "Mutations": mutations, "Classes": lclasses, "HealthClasses": hclasses, "Formats": formats, "Fields": fields, "ValueClasses": values}}
     cat = {
         "name": "answers",
         "mc": [{"module": "Poison", "cfg": "Poison_mc.cfg"}],
@@ -16,13 +16,18 @@ def register(PROPS, HARNESS_PKGS):
         "pkg": "internal/app", "test": "TestVerif_Poison",
         "harness_files": ["stack_test.go", "dispatch_test.go", "poison_test.go"],
         "trace": {"module": "PoisonTrace", "cfg": "Poison_trace.cfg"},
-        "nontrivial": lambda s: s["kind"] != "metrics" and s["cls"] != "ok_new",
+        "nontrivial": lambda s: s["kind"] not in ("metrics", "fleet") and s["cls"] != "ok_new",
         "panic_is_event": True,
     }
     met = dict(cat)
     met.update({"name": "metrics", "mc": [], "pkg": "internal/adapter/metrics", "test": "TestVerif_MetricsTails",
                 "harness_dirs": ["metrics"], "harness_files": ["tails_test.go"],
                 "nontrivial": lambda s: s["kind"] == "metrics" and s["value"] not in ("normal",)})
+    fleet = dict(cat)
+    fleet.update({"name": "fleet", "mc": [], "pkg": "internal/adapter/discovery", "test": "TestVerif_Fleet",
+                  "harness_dirs": ["fleet"], "harness_files": ["fleet_test.go"], "panic_is_event": True,
+                  "nontrivial": lambda s: s["kind"] == "fleet"})
+    HARNESS_PKGS.setdefault("fleet", "internal/adapter/discovery")
     PROPS["C20"] = {
         "rule": "TLC enumerates (operation, response class): model listings of 13 hostile classes (not JSON, truncated, "
                 "empty, nameless, duplicates, wrong types, null entries, 20000-deep nesting, 1e999, 12 MiB, NUL bytes) per "
@@ -38,5 +43,5 @@ def register(PROPS, HARNESS_PKGS):
         # third part: error bodies and broken completions on every route (the Dispatch scenarios of C05, which
         # include 130 KB error pages, non-envelope errors, garbage and resets): the operation must end with a result
         # or an error and never hang
-        "parts": [cat, met] + ([dict(PROPS["C05"]["parts"][0], name="errors")] if "C05" in PROPS else []),
+        "parts": [cat, met, fleet] + ([dict(PROPS["C05"]["parts"][0], name="errors")] if "C05" in PROPS else []),
     }
